@@ -1,15 +1,18 @@
-(* C02/Run.v -- correspondence entry point: the user's grammar is built with
-   both smart_factorization values; per build: is_ambiguous, the validators
-   [wf_grammar] and [hyps_ok] the C02 theorems assume, the parse result of every token list
-   and (thorough tier only) the internal sets as diagnostics. *)
+(* C02/Run.v -- correspondence entry point.  A case is a user grammar (ONE productions
+   dict), a list of token strings and a PROGRAM over two parser objects (the dict built
+   with smart_factorization False / True): constructor calls, is_ambiguous() calls and
+   parse() calls in any order, any number of times (C02/Session.v).  Printed: the
+   observation of every operation of the program; per smart value the validators
+   [wf_grammar] and [hyps_ok] the C02 theorems assume; and (thorough tier only) the internal
+   sets and the table of the objects AS THE PROGRAM LEAVES THEM. *)
 From Coq Require Import ZArith List Bool.
-From AK Require Export LLP.Build C02.Model.
+From AK Require Export LLP.Build C02.Model C02.Session.
 From AK Require C01.Run.      (* hyps_ok: C01's validator of the factorization, hypothesis of ll1_reject *)
 Import ListNotations.
 
 Inductive case :=
-| Grammar2 (ug : list (sym * list (list sym))) (terminals : list sym) (start : sym)
-           (fuel : nat) (inputs : list (list (sym * list Z))) (diag : bool).
+| Session2 (ug : list (sym * list (list sym))) (terminals : list sym) (start : sym)
+           (fuel : nat) (inputs : list (list (sym * list Z))) (ops : list op) (diag : bool).
 
 Definition sx_keyed_sets (keys : list sym) (m : setmap) : sx :=
   sx_list (fun k => SL [sx_str k; sx_list sx_str (sort_syms (sm_get m k))]) (sort_syms keys).
@@ -21,21 +24,25 @@ Definition sx_diag (p : parser) : sx :=
       sx_keyed_sets (gkeys (t_grammar T)) (t_follow T);
       sx_list (fun c => SL [sx_str (fst (fst c)); sx_str (snd (fst c)); sx_list SZ (snd c)]) (diag_table T)].
 
-Definition run_one (ug : list (sym * list (list sym))) (terminals : list sym) (start : sym)
-           (fuel : nat) (inputs : list (list (sym * list Z))) (diag smart : bool) : sx :=
+Definition sx_diag_obj (o : option parser) : sx :=
+  match o with Some p => sx_diag p | None => SL [] end.
+
+(* the hypotheses of the theorems, evaluated on what the constructor returns *)
+Definition run_validators (ug : list (sym * list (list sym))) (terminals : list sym) (start : sym)
+           (smart : bool) : sx :=
   match build ug terminals smart start with
   | Err e => SL [SZ 1; SZ (err_code e)]
   | Ok p =>
-      SL [SZ 0; sx_bool (is_ambiguous (p_tables p));
-          sx_bool (wf_grammar (p_grammar p) (p_terminals p) (p_start p));
-          sx_bool (C01.Run.hyps_ok ug start p);
-          SL (map (fun inp => sx_res sx_tree (p_parse p fuel (mk_toks inp))) inputs);
-          if diag then sx_diag p else SL []]
+      SL [SZ 0; sx_bool (wf_grammar (p_grammar p) (p_terminals p) (p_start p));
+          sx_bool (C01.Run.hyps_ok ug start p)]
   end.
 
 Definition run (c : case) : sx :=
   match c with
-  | Grammar2 ug terminals start fuel inputs diag =>
-      SL [run_one ug terminals start fuel inputs diag false;
-          run_one ug terminals start fuel inputs diag true]
+  | Session2 ug terminals start fuel inputs ops diag =>
+      let '(bs, Wf) := session_w ug terminals start fuel inputs no_objects ops in
+      SL [SL (map sx_obs bs);
+          run_validators ug terminals start false;
+          run_validators ug terminals start true;
+          if diag then SL [sx_diag_obj (w_plain Wf); sx_diag_obj (w_smart Wf)] else SL []]
   end.
